@@ -3,7 +3,7 @@ use crate::build::*;
 use crate::engine::*;
 use crate::enumr::*;
 use crate::exact::*;
-use geo::{LineString, MultiLineString, MultiPolygon, Polygon, Simplify, SimplifyIdx, SimplifyVw, SimplifyVwIdx, SimplifyVwPreserve};
+use geo::{Coord, LineString, MultiLineString, MultiPolygon, Polygon, Simplify, SimplifyIdx, SimplifyVw, SimplifyVwIdx, SimplifyVwPreserve};
 use serde_json::json;
 
 fn eps_alphabet() -> Vec<f64> {
@@ -292,6 +292,64 @@ pub fn run(mut run: Run) -> i32 {
                 });
                 if ok != Ok(true) {
                     acc.viol("Multi* simplification differs from member-wise simplification".into(), idx, || json!({"ring": format!("{:?}", inp), "epsilon": e, "result": format!("{:?}", ok)}));
+                }
+            }
+        });
+    }
+    // twins of the index variants under exact maps: the kept positions must not change when the line string is translated far away (f64 at 2^52, f32 at 2^23:
+    // every coordinate still exact, products of coordinates round), scaled to the ends of the exponent range together with the tolerance (RDP: 2^-600, 2^500;
+    // VW: 2^-100, areas scale by 2^-200), or taken in f32 (VW only: its areas are exact half-integers there)
+    {
+        let k = if quick { 5 } else { 6 };
+        let n = 9usize.pow(k as u32);
+        let g3t = g3.clone();
+        let epst = eps.clone();
+        run.stage("index-twins-translated-scaled-f32", n * ne, move |idx, acc| {
+            let inp: Vec<IP> = nth_sequence(9, k, idx / ne).iter().map(|&i| g3t[i]).collect();
+            let e = epst[idx % ne];
+            let l = ls(&inp);
+            let (rdp0, vw0) = match guard(|| (l.simplify_idx(e), l.simplify_vw_idx(e))) {
+                Ok(x) => x,
+                Err(_) => return, // reported by the main stage
+            };
+            acc.class(format!("twins kept-rdp{} kept-vw{}", rdp0.len(), vw0.len()));
+            // the twin's kept positions are judged against the property itself on the integer input (ties may legitimately break differently)
+            let judge = |acc: &mut Acc, kept: Result<Vec<usize>, String>, rdp: bool, what: &str| {
+                acc.evals += 1;
+                match kept {
+                    Err(p) => acc.viol(format!("{} panic", what), idx, || json!({"input": format!("{:?}", inp), "epsilon": e, "panic": p})),
+                    Ok(k) => {
+                        if k.iter().any(|&i| i >= inp.len()) {
+                            acc.viol(format!("{} names a position outside the input", what), idx, || json!({"input": format!("{:?}", inp), "epsilon": e, "kept_idx": format!("{:?}", k)}));
+                            return;
+                        }
+                        let out: Vec<IP> = k.iter().map(|&i| inp[i]).collect();
+                        if rdp {
+                            check_rdp(acc, idx, &inp, e, &out, &k, what, 2.min(inp.len()));
+                        } else {
+                            check_vw(acc, idx, &inp, e, &out, &k, what, 2.min(inp.len()), true);
+                        }
+                    }
+                }
+            };
+            // far translations (exact)
+            let (ox, oy) = (4503599627370496.0f64, -2251799813685248.0f64);
+            let lt = LineString::new(inp.iter().map(|p| Coord { x: p.0 as f64 + ox, y: p.1 as f64 + oy }).collect());
+            judge(acc, guard(|| lt.simplify_idx(e)), true, "simplify_idx [translated by (2^52, -2^51)]");
+            judge(acc, guard(|| lt.simplify_vw_idx(e)), false, "simplify_vw_idx [translated by (2^52, -2^51)]");
+            // f32, at the origin and at (2^23, -2^22): Visvalingam areas are exact half-integers there
+            for (name, ox, oy) in [("simplify_vw_idx<f32>", 0.0f32, 0.0f32), ("simplify_vw_idx<f32> [translated by (2^23, -2^22)]", 8388608.0f32, -4194304.0f32)] {
+                let l32 = LineString::new(inp.iter().map(|p| Coord { x: p.0 as f32 + ox, y: p.1 as f32 + oy }).collect());
+                judge(acc, guard(|| l32.simplify_vw_idx(e as f32)), false, name);
+            }
+            // exact scalings together with the tolerance
+            for (sc_exp, rdp) in [(-600i32, true), (500, true), (-100, false), (100, false)] {
+                let sc = 2f64.powi(sc_exp);
+                let lsc = LineString::new(inp.iter().map(|p| Coord { x: p.0 as f64 * sc, y: p.1 as f64 * sc }).collect());
+                if rdp {
+                    judge(acc, guard(|| lsc.simplify_idx(e * sc)), true, &format!("simplify_idx [line string and tolerance scaled by 2^{}]", sc_exp));
+                } else {
+                    judge(acc, guard(|| lsc.simplify_vw_idx(e * sc * sc)), false, &format!("simplify_vw_idx [line string scaled by 2^{}, tolerance by its square]", sc_exp));
                 }
             }
         });
